@@ -16,9 +16,14 @@ import urllib.request
 
 # /verif normally; a `vp run` snapshot uses its own tree (own build output, scratch, evidence)
 ROOT = os.path.dirname(os.path.dirname(os.path.abspath(__file__)))
-REPO = '/repo'
-TARGET = ROOT + '/.target'
-WORK = ROOT + '/.work'
+# The checks verify /repo.  VERIF_REPO points them at another checkout (used only to evaluate seeded changes in
+# scratch worktrees in parallel, without touching /repo); build output and scratch are then kept apart.
+REPO = os.environ.get('VERIF_REPO', '/repo').rstrip('/')
+_ALT = '' if REPO == '/repo' else '/alt_' + hashlib.md5(REPO.encode()).hexdigest()[:10]
+TARGET = ROOT + '/.target' + _ALT
+WORK = ROOT + '/.work' + _ALT
+EVIDENCE = ROOT + '/evidence' if not _ALT else WORK + '/evidence'
+REPLAYS = ROOT + '/replays' if not _ALT else WORK + '/replays'
 FEATURE = 'breard_r_acmed_verif'
 BIN = {
     'acmed_v': TARGET + '/b1/release/acmed',   # release profile + verification feature (probe, zero waits)
@@ -78,9 +83,16 @@ def build(which=('b1', 'b2', 'harness')):
     with open(TARGET + '/build.lock', 'w') as lk:
         fcntl.flock(lk, fcntl.LOCK_EX)
         if 'harness' in which:
-            shutil.copyfile(REPO + '/Cargo.lock', ROOT + '/harness/Cargo.lock')
-            _run_build(['cargo', 'build', '--release', '--offline', '--target-dir', TARGET + '/harness'],
-                       ROOT + '/harness', log)
+            hsrc = ROOT + '/harness'
+            if _ALT:
+                # the harness links acme_common by path: use a copy whose manifest points at the alternative checkout
+                hsrc = TARGET + '/harness-src'
+                shutil.rmtree(hsrc, ignore_errors=True)
+                shutil.copytree(ROOT + '/harness', hsrc, ignore=shutil.ignore_patterns('target'))
+                m = open(hsrc + '/Cargo.toml').read().replace('/repo/acme_common', REPO + '/acme_common')
+                open(hsrc + '/Cargo.toml', 'w').write(m)
+            shutil.copyfile(REPO + '/Cargo.lock', hsrc + '/Cargo.lock')
+            _run_build(['cargo', 'build', '--release', '--offline', '--target-dir', TARGET + '/harness'], hsrc, log)
         if 'b1' in which:
             _run_build(['cargo', 'build', '--release', '--locked', '--offline', '-p', 'acmed',
                         '--features', FEATURE, '--target-dir', TARGET + '/b1'], REPO, log)
@@ -114,7 +126,7 @@ def rmtree(d):
 
 def keep_replay(prop, name, src_dir=None, data=None):
     """Stores the witness of a violation; returns the path printed on the VIOLATION line."""
-    base = '%s/replays/%s' % (ROOT, prop)
+    base = '%s/%s' % (REPLAYS, prop)
     os.makedirs(base, exist_ok=True)
     dst = '%s/%s' % (base, name)
     if src_dir and os.path.isdir(src_dir):
@@ -517,11 +529,11 @@ class Check:
         }
         if self.inconclusive:
             ev['coverage']['inconclusive'] = self.inconclusive[:20]
-        os.makedirs(ROOT + '/evidence', exist_ok=True)
-        tmp = '%s/evidence/%s.json.tmp' % (ROOT, self.prop)
+        os.makedirs(EVIDENCE, exist_ok=True)
+        tmp = '%s/%s.json.tmp' % (EVIDENCE, self.prop)
         with open(tmp, 'w') as f:
             json.dump(ev, f, indent=1, default=str)
-        os.replace(tmp, '%s/evidence/%s.json' % (ROOT, self.prop))
+        os.replace(tmp, '%s/%s.json' % (EVIDENCE, self.prop))
         print('%s %s seed=%d: evaluations=%d distinct_nontrivial=%d violations=%d known=%d wall=%.1fs' % (
             self.prop, self.tier, seed(), self.evaluations, len(self.distinct), len(seen), len(reported),
             time.time() - self.t0))
